@@ -39,6 +39,31 @@ class PEval:
         self.return_envs = []       # the environment at each `return` reached, parallel to returns
         self.attr_stores = []       # (target text, value node, statement) of the attribute assignments reached
 
+    _MUTATORS = {'append', 'extend', 'insert', 'update', 'setdefault', 'add', 'pop', 'popitem', 'clear', 'remove', 'discard', 'sort', 'reverse'}
+
+    def _mutated(self, name):
+        """A dict/list literal that some code of the package writes into is a cache, not a constant: its content is not known."""
+        mu = getattr(self.m, '_peval_mutated', None)
+        if mu is None:
+            mu = set()
+            def tail(x):
+                return x.id if isinstance(x, ast.Name) else x.attr if isinstance(x, ast.Attribute) else None
+            for mod, tree in self.m.mods.items():
+                if mod == 'luts':
+                    continue
+                for x in ast.walk(tree):
+                    if isinstance(x, ast.Subscript) and isinstance(x.ctx, (ast.Store, ast.Del)) and tail(x.value):
+                        mu.add(tail(x.value))
+                    elif isinstance(x, ast.Call) and isinstance(x.func, ast.Attribute) and x.func.attr in self._MUTATORS and tail(x.func.value):
+                        mu.add(tail(x.func.value))
+                    elif isinstance(x, ast.AugAssign) and tail(x.target):
+                        mu.add(tail(x.target))
+            try:
+                self.m._peval_mutated = mu
+            except Exception:
+                pass
+        return name in mu
+
     # ------------------------------------------------------------------ expressions
     def ev(self, e, env):
         if isinstance(e, ast.Constant):
@@ -47,7 +72,7 @@ class PEval:
             if e.id in env:
                 return env[e.id]
             g = self.m.modglobals.get(self.f.mod, {}).get(e.id)
-            if isinstance(g, (ast.Constant, ast.Dict, ast.Tuple, ast.List)):
+            if isinstance(g, (ast.Constant, ast.Dict, ast.Tuple, ast.List)) and not (isinstance(g, (ast.Dict, ast.List)) and self._mutated(e.id)):
                 return self.ev(g, {})
             return sym(e.id)
         if isinstance(e, ast.Attribute):
@@ -58,12 +83,12 @@ class PEval:
             if isinstance(e.value, ast.Name) and e.value.id in ('cls', 'self') and getattr(self.f, 'cls', None) in self.m.classes:
                 for c_ in self.m.mro.get(self.f.cls, [self.f.cls]):
                     v_ = self.m.classes[c_].attrs.get(e.attr) if c_ in self.m.classes else None
-                    if isinstance(v_, (ast.Constant, ast.Dict, ast.Tuple, ast.List)):
+                    if isinstance(v_, (ast.Constant, ast.Dict, ast.Tuple, ast.List)) and not (isinstance(v_, (ast.Dict, ast.List)) and self._mutated(e.attr)):
                         return self.ev(v_, {})
             # module.global
             if isinstance(e.value, ast.Name) and e.value.id in self.m.mods:
                 g = self.m.modglobals.get(e.value.id, {}).get(e.attr)
-                if isinstance(g, (ast.Constant, ast.Dict, ast.Tuple, ast.List)):
+                if isinstance(g, (ast.Constant, ast.Dict, ast.Tuple, ast.List)) and not (isinstance(g, (ast.Dict, ast.List)) and self._mutated(e.attr)):
                     return PEval(self.m, _modfunc_stub(self.m, e.value.id, self.f), {}).ev(g, {})
             return sym(txt)
         if isinstance(e, ast.Dict):
@@ -154,6 +179,12 @@ class PEval:
                     return base[lo:hi:st]
                 return ('slice', base, lo, hi) if st is None else ('slice', base, lo, hi, st)
             k = self.ev(e.slice, env)
+            if isinstance(k, tuple) and k and k[0] == 'sliceobj':
+                # x[slice(lo, hi, step)] is x[lo:hi:step]
+                lo, hi, st = k[1], k[2], k[3]
+                if is_const(base) and isinstance(base, (str, bytes, tuple)):
+                    return base[lo:hi:st]
+                return ('slice', base, lo, hi) if st is None else ('slice', base, lo, hi, st)
             if isinstance(base, dict) and is_const(k):
                 if self._hashable(k) in base:
                     return base[self._hashable(k)]
@@ -185,6 +216,9 @@ class PEval:
             return env[ast.unparse(e)]            # a call whose value the caller of the evaluator fixes (e.g. self._getuint())
         if name == 'float' and len(args) == 1 and isinstance(args[0], str) and args[0].lstrip('+-').lower() in ('nan', 'inf', 'infinity'):
             return float(args[0])
+        if name == 'slice' and 1 <= len(args) <= 3 and not kw and all(a is None or (isinstance(a, int) and not isinstance(a, bool)) for a in args):
+            lo, hi, st = (None, args[0], None) if len(args) == 1 else (args[0], args[1], args[2] if len(args) == 3 else None)
+            return ('sliceobj', lo, hi, st)
         if name == 'bool' and len(args) == 1 and is_const(args[0]) and isinstance(args[0], (bool, int, str, type(None))):
             return bool(args[0])
         if name == 'int' and len(args) == 1 and is_const(args[0]) and isinstance(args[0], (bool, int)):
@@ -227,7 +261,16 @@ class PEval:
             return ('call', name, tuple(args))
         # helpers of the package, module level, bounded depth
         g = None
-        if isinstance(e.func, ast.Name):
+        if isinstance(e.func, ast.Name) and isinstance(env.get(e.func.id), tuple) and len(env[e.func.id]) == 2 and env[e.func.id][0] == 'sym':
+            # a local holding a function of the package (`enc = helpers.a2b if flag else helpers.b2b; enc(x)`)
+            ref = env[e.func.id][1].split('.')
+            if len(ref) >= 2 and ref[-2] in self.m.mods:
+                g = self.m.modfuncs.get(ref[-2], {}).get(ref[-1])
+            elif len(ref) == 1:
+                g = self.m.modfuncs.get(self.f.mod, {}).get(ref[0])
+        if g is not None:
+            pass
+        elif isinstance(e.func, ast.Name):
             g = self.m.modfuncs.get(self.f.mod, {}).get(e.func.id)
         elif isinstance(e.func, ast.Attribute) and isinstance(e.func.value, ast.Name) and e.func.value.id in self.m.mods:
             g = self.m.modfuncs.get(e.func.value.id, {}).get(e.func.attr)
